@@ -304,3 +304,97 @@ func Send[T any](site int32, ch chan<- T, v T) {
 		chanWoken(s, t, true)
 	}
 }
+
+// ---- mixed selects (receives that keep the value, sends) ----
+
+// Case is one case of a select that has a send or a receive whose value is used.
+type Case struct {
+	send bool
+	ch   reflect.Value
+	val  reflect.Value
+}
+
+// RecvCase is `case v := <-ch` / `case <-ch`.
+func RecvCase(ch any) Case { return Case{ch: reflect.ValueOf(ch)} }
+
+// SendCase is `case ch <- v`.
+func SendCase[T any](ch chan<- T, v T) Case {
+	return Case{send: true, ch: reflect.ValueOf(ch), val: reflect.ValueOf(&v).Elem()}
+}
+
+// As converts the value received by SelectMixed to the element type of ch.
+func As[T any](ch <-chan T, v any) T {
+	if v == nil {
+		var zero T
+		return zero
+	}
+	return v.(T)
+}
+
+// SelectMixed replaces a select with at least one send case or one receive whose value is used.
+// hasDefault: the select has a default clause (index -1 is returned for it).
+// It returns the chosen case, and for a receive the value and the ok flag.
+func SelectMixed(site int32, hasDefault bool, cases ...Case) (int, any, bool) {
+	build := func(extra ...reflect.SelectCase) []reflect.SelectCase {
+		out := make([]reflect.SelectCase, 0, len(cases)+len(extra))
+		for _, c := range cases {
+			if c.send {
+				out = append(out, reflect.SelectCase{Dir: reflect.SelectSend, Chan: c.ch, Send: c.val})
+			} else {
+				out = append(out, reflect.SelectCase{Dir: reflect.SelectRecv, Chan: c.ch})
+			}
+		}
+		return append(out, extra...)
+	}
+	res := func(i int, v reflect.Value, ok bool) (int, any, bool) {
+		if i >= len(cases) {
+			return -1, nil, false
+		}
+		if cases[i].send || !v.IsValid() {
+			return i, nil, ok
+		}
+		return i, v.Interface(), ok
+	}
+	s := active.Load()
+	if s == nil {
+		if hasDefault {
+			i, v, ok := reflect.Select(build(reflect.SelectCase{Dir: reflect.SelectDefault}))
+			return res(i, v, ok)
+		}
+		i, v, ok := reflect.Select(build())
+		return res(i, v, ok)
+	}
+	t := s.enter()
+	if t.sched {
+		panic("simrt.SelectMixed in scheduler context")
+	}
+	if !hasDefault {
+		s.yield(site)
+	}
+	// ready cases first, starting at a seeded offset (reflect.Select would pick with the runtime's own randomness)
+	n := len(cases)
+	start := 0
+	if n > 1 {
+		start = s.rng[StreamSched].IntN(n)
+	}
+	for k := 0; k < n; k++ {
+		i := (start + k) % n
+		one := build()[i : i+1]
+		j, v, ok := reflect.Select(append(one, reflect.SelectCase{Dir: reflect.SelectDefault}))
+		if j == 0 {
+			return res(i, v, ok)
+		}
+	}
+	if hasDefault {
+		return -1, nil, false
+	}
+	t.siteID = site
+	t.site = ""
+	t.real = true
+	i, v, ok := reflect.Select(build(reflect.SelectCase{Dir: reflect.SelectRecv, Chan: reflect.ValueOf(s.shutdownCh)}))
+	s.unblock(t)
+	if i == n {
+		runtime.Goexit()
+	}
+	return res(i, v, ok)
+}
